@@ -101,6 +101,7 @@ type Engine struct {
 	sh          *sharedState
 	initOK      func(p *ssa.Package) bool
 	params      map[string]int
+	recvSubst   map[string]*ssa.Function
 }
 
 func NewEngine(prog *ssa.Program, cfg Config) (*Engine, error) {
